@@ -131,6 +131,16 @@ Section Proofs.
     machine E (RCons (Rule ms (Goto tgt)) rest) k st = pre tm (machine E tgt done st).
   Proof. intro H. cbn [machine]. now rewrite H. Qed.
 
+  Lemma machine_call_ok ms tgt rest k st tm t st' :
+    match_loop E ms st = (tm, VTrue) -> machine E tgt done st = (t, st', None) ->
+    machine E (RCons (Rule ms (Call tgt)) rest) k st = pre (tm ++ t) (machine E rest k st').
+  Proof. intros H Ht. cbn [machine]. now rewrite H, Ht. Qed.
+
+  Lemma machine_call_error ms tgt rest k st tm t st' c :
+    match_loop E ms st = (tm, VTrue) -> machine E tgt done st = (t, st', Some c) ->
+    machine E (RCons (Rule ms (Call tgt)) rest) k st = (tm ++ t, st', Some c).
+  Proof. intros H Ht. cbn [machine]. now rewrite H, Ht. Qed.
+
   Lemma machine_wrap ms w rest k st tm :
     match_loop E ms st = (tm, VTrue) ->
     machine E (RCons (Rule ms (Wrap w)) rest) k st = pre tm (wrap_o E w (machine E rest k) st).
@@ -197,6 +207,17 @@ Section Proofs.
       exec_walker E (RCons (Rule ms (Goto tgt)) rest, stack) st = pre tm (exec_walker E (tgt, []) st).
     Proof. unfold exec_walker. cbn [fst snd]. now rewrite (machine_goto _ _ _ _ _ _ Hm). Qed.
 
+    Lemma walker_call_ok tgt t st' :
+      exec_walker E (tgt, []) st = (t, st', None) ->
+      exec_walker E (RCons (Rule ms (Call tgt)) rest, stack) st
+      = pre (tm ++ t) (exec_walker E (rest, stack) st').
+    Proof. now apply machine_call_ok. Qed.
+
+    Lemma walker_call_error tgt t st' c :
+      exec_walker E (tgt, []) st = (t, st', Some c) ->
+      exec_walker E (RCons (Rule ms (Call tgt)) rest, stack) st = (tm ++ t, st', Some c).
+    Proof. now apply machine_call_error. Qed.
+
     Lemma walker_wrap w :
       exec_walker E (RCons (Rule ms (Wrap w)) rest, stack) st
       = pre tm (wrap_o E w (exec_walker E (rest, stack)) st).
@@ -209,7 +230,7 @@ Section Proofs.
   Definition Prs (rs : rules) : Prop :=
     forall k a, (forall s, k s = a s) -> forall st, machine E rs k st = glue (spec_rules E rs a st) a.
   Definition Pact (a : act) : Prop :=
-    match a with Jump t | Goto t => Prs t | _ => True end.
+    match a with Jump t | Goto t | Call t => Prs t | _ => True end.
   Definition Prule (r : rule) : Prop := match r with Rule _ a => Pact a end.
 
   Lemma refine_cons r rs : Prule r -> Prs rs -> Prs (RCons r rs).
@@ -217,7 +238,7 @@ Section Proofs.
     destruct r as [ms a]. intros Ha IH k af Hk st.
     cbn [machine spec_rules]. rewrite match_loop_spec.
     destruct (spec_matchers E ms st) as [tm v]. destruct v as [| |c].
-    - destruct a as [e|w| |rc| |tgt|tgt]; cbn [Prule Pact] in Ha.
+    - destruct a as [e|w| |rc| |tgt|tgt|tgt]; cbn [Prule Pact] in Ha.
       + destruct (exec_o E e st) as [st' [c|]]; [reflexivity|].
         rewrite glue_pre. f_equal. now apply IH.
       + rewrite (Hext w (machine E rs k) (fun s => glue (spec_rules E rs af s) af)) by (intro s; now apply IH).
@@ -235,6 +256,10 @@ Section Proofs.
       + rewrite (Ha done done) by reflexivity.
         destruct (spec_rules E tgt done st) as [[t s] r].
         destruct r as [| | |c]; cbn; rewrite ?app_nil_r; reflexivity.
+      + rewrite (Ha done done) by reflexivity.
+        destruct (spec_rules E tgt done st) as [[t s] r].
+        destruct r as [| | |c]; cbn [glue pre done]; rewrite ?app_nil_r;
+          try reflexivity; rewrite glue_pre; f_equal; now apply IH.
     - rewrite glue_pre. f_equal. now apply IH.
     - reflexivity.
   Qed.
@@ -292,6 +317,29 @@ Section Proofs.
     match_loop E ms st = (tm, VTrue) ->
     machine E (RCons (Rule ms (Goto tgt)) rest) k st = pre tm (run_seq E tgt st).
   Proof. apply machine_goto. Qed.
+
+  (** a sequence used as a plain action ([exec: $seq]): an error inside it, at
+      any depth, aborts the calling sequence and everything pending too ... *)
+  Lemma call_error_aborts ms tgt rest k st tm t s c :
+    match_loop E ms st = (tm, VTrue) ->
+    spec_rules E tgt done st = (t, s, Err c) ->
+    machine E (RCons (Rule ms (Call tgt)) rest) k st = (tm ++ t, s, Some c).
+  Proof.
+    intros Hm H. apply machine_call_error; [exact Hm|].
+    now rewrite machine_refines_spec_k, H.
+  Qed.
+
+  (** ... and however else it ends (end of list, return, accept, reject: these
+      end the called sequence only) the caller goes on with its next rule *)
+  Lemma call_then_continue ms tgt rest k st tm t s r :
+    match_loop E ms st = (tm, VTrue) ->
+    spec_rules E tgt done st = (t, s, r) -> (forall c, r <> Err c) ->
+    machine E (RCons (Rule ms (Call tgt)) rest) k st = pre (tm ++ t) (machine E rest k s).
+  Proof.
+    intros Hm H Hr. apply machine_call_ok; [exact Hm|].
+    rewrite machine_refines_spec_k, H.
+    destruct r as [| | |c]; cbn; rewrite ?app_nil_r; try reflexivity. now destruct (Hr c).
+  Qed.
 End Proofs.
 
 (** ** the driver's wrappers use their continuation only by running it *)
